@@ -121,6 +121,8 @@ def run_reader(mods, stream, encoding, dlm, policy, cmt, header, chunk_size):
         res['err'] = True
         res['errnr'] = int(m.group(1))
         res['errnl'] = int(m.group(2))
+    except Exception as e:  # noqa -- a raw exception (e.g. UnicodeDecodeError) escaping the reader
+        return {'other_error': 'RAW ' + type(e).__name__ + ': ' + str(e)}, None
     if it is not None:
         for w in it.get_warnings():
             if 'BOM' in w:
